@@ -11,6 +11,7 @@ pub mod wiretypes;
 pub mod c11;
 pub mod c13;
 pub mod c14;
+pub mod c16;
 pub mod c17;
 pub mod util;
 
@@ -25,6 +26,7 @@ pub fn dispatch(id: &str, args: &Args) -> Option<Report> {
         "C11" => c11::run(args),
         "C13" => c13::run(args),
         "C14" => c14::run(args),
+        "C16" => c16::run(args),
         "C17" => c17::run(args),
         _ => return None,
     })
